@@ -5,9 +5,14 @@
 From PDV Require Import lib.Skel gen.Gen_C14.
 From Coq Require Import ZArith.
 
-(* putStoreImpl: under the cluster lock; id check, version check, address check over all stores, then either a new StoreInfo or the in-place MergeLabels + Clone, label check, putStoreLocked. The model's put_impl follows exactly this order. *)
+(* putStoreImpl is only the locking wrapper (fix fdb55d1); PutStore is its only caller besides tests *)
 Lemma skel_putStoreImpl_ok : skel_putStoreImpl =
-  [Lock "c"; DeferUnlock "c"; IfE "store.GetId() == 0" [Ret] []; Call "checkStoreVersion"; IfE "err != nil" [Ret] []; Call "GetStores"; ForE [Call "IsTombstone"; IfE "s.GetID() != store.GetId() && s.GetAddress() == store.GetAddress()" [Ret] []]; Call "GetStore"; IfE "s == nil" [Call "NewStoreInfo"] [IfE "!force" [Call "MergeLabels"] []; Call "SetStoreAddress"; Call "SetStoreVersion"; Call "SetStoreLabels"; Call "Clone"]; Call "checkStoreLabels"; IfE "err != nil" [Ret] []; Call "putStoreLocked"; Ret].
+  [Lock "c"; DeferUnlock "c"; Call "putStoreImplLocked"; Ret].
+Proof. reflexivity. Qed.
+
+(* putStoreImplLocked (no locking of its own): id check, version check, address check over all stores, then either a new StoreInfo or MergeLabels + Clone, label check, putStoreLocked. The model's put_impl follows exactly this order. *)
+Lemma skel_putStoreImplLocked_ok : skel_putStoreImplLocked =
+  [IfE "store.GetId() == 0" [Ret] []; Call "checkStoreVersion"; IfE "err != nil" [Ret] []; Call "GetStores"; ForE [Call "IsTombstone"; IfE "s.GetID() != store.GetId() && s.GetAddress() == store.GetAddress()" [Ret] []]; Call "GetStore"; IfE "s == nil" [Call "NewStoreInfo"] [IfE "!force" [Call "MergeLabels"] []; Call "SetStoreAddress"; Call "SetStoreVersion"; Call "SetStoreLabels"; Call "Clone"]; Call "checkStoreLabels"; IfE "err != nil" [Ret] []; Call "putStoreLocked"; Ret].
 Proof. reflexivity. Qed.
 
 (* PutStore: the cluster version is raised only after a successful putStoreImpl *)
@@ -15,9 +20,11 @@ Lemma skel_PutStore_ok : skel_PutStore =
   [Call "putStoreImpl"; IfE "err != nil" [Ret] []; Call "OnStoreVersionChange"; Ret].
 Proof. reflexivity. Qed.
 
-(* UpdateStoreLabels = putStoreImpl on a clone of the served meta with the new labels (model: do_labels) *)
+(* UpdateStoreLabels: the lookup of the served meta, the clone with the new labels and the put are ONE section under the
+   cluster lock (model: do_labels is one atomic command). Before fdb55d1 the lookup and clone preceded the lock, which the
+   overlapping-operations class exposed (regression pairs 3 and 4 of the driver). *)
 Lemma skel_UpdateStoreLabels_ok : skel_UpdateStoreLabels =
-  [Call "GetStore"; IfE "store == nil" [Ret] []; Call "Clone"; Assign "newStore.Labels" "= labels"; Call "putStoreImpl"; Ret].
+  [Lock "c"; DeferUnlock "c"; Call "GetStore"; IfE "store == nil" [Ret] []; Call "Clone"; Assign "newStore.Labels" "= labels"; Call "putStoreImplLocked"; Ret].
 Proof. reflexivity. Qed.
 
 (* version guard: parse error, then IsCompatible(cluster version, store version) *)
@@ -37,7 +44,7 @@ Proof. reflexivity. Qed.
 
 (* buryStore: no emptiness guard of its own; version change runs whether or not the save succeeded *)
 Lemma skel_buryStore_ok : skel_buryStore =
-  [Lock "c"; DeferUnlock "c"; Call "GetStore"; IfE "store == nil" [Ret] []; Call "IsTombstone"; IfE "store.IsTombstone()" [Ret] []; IfE "store.IsUp()" [Ret] []; Call "TombstoneStore"; Call "Clone"; Call "putStoreLocked"; Call "onStoreVersionChangeLocked"; Ret].
+  [Lock "c"; DeferUnlock "c"; Call "GetStore"; IfE "store == nil" [Ret] []; Call "IsTombstone"; IfE "store.IsTombstone()" [Ret] []; IfE "store.IsUp()" [Ret] []; Call "GetStoreRegionCount"; IfE "n > 0" [Ret] []; Call "TombstoneStore"; Call "Clone"; Call "putStoreLocked"; Call "onStoreVersionChangeLocked"; Ret].
 Proof. reflexivity. Qed.
 
 (* SetStoreWeight: the two weight keys are written BEFORE the meta record (three writes: model do_weight idx 0,1,2); when putStoreLocked fails the served weights are saved again *)
@@ -75,7 +82,7 @@ Lemma skel_onStoreVersionChangeLocked_ok : skel_onStoreVersionChangeLocked =
   [Call "GetStores"; ForE [Call "IsTombstone"]; IfE "minVersion != nil && clusterVersion.LessThan(*minVersion)" [Call "CASClusterVersion"] []].
 Proof. reflexivity. Qed.
 
-Lemma guards_putStoreImpl_ok : guards_putStoreImpl =
+Lemma guards_putStoreImplLocked_ok : guards_putStoreImplLocked =
   [("store.GetId() == 0", "return errors.Errorf(""invalid put store %v"", store)"); ("err != nil", "return err"); ("s.IsTombstone() || s.IsPhysicallyDestroyed()", "continue"); ("s.GetID() != store.GetId() && s.GetAddress() == store.GetAddress()", "return errors.Errorf(""duplicated store address: %v, already registered by %v"", store, s.GetMeta())"); ("s == nil", "..."); ("!force", "..."); ("err != nil", "return err")].
 Proof. reflexivity. Qed.
 
@@ -88,7 +95,7 @@ Lemma guards_UpStore_ok : guards_UpStore =
 Proof. reflexivity. Qed.
 
 Lemma guards_buryStore_ok : guards_buryStore =
-  [("store == nil", "return errs.ErrStoreNotFound.FastGenByArgs(storeID)"); ("store.IsTombstone()", "return nil"); ("store.IsUp()", "return errs.ErrStoreIsUp.FastGenByArgs()"); ("err == nil", "...")].
+  [("store == nil", "return errs.ErrStoreNotFound.FastGenByArgs(storeID)"); ("store.IsTombstone()", "return nil"); ("store.IsUp()", "return errs.ErrStoreIsUp.FastGenByArgs()"); ("n > 0", "return errors.Errorf(""store %d still holds %d region peers, it cannot be buried"", storeID, n)"); ("err == nil", "...")].
 Proof. reflexivity. Qed.
 
 Lemma guards_SetStoreWeight_ok : guards_SetStoreWeight =
@@ -158,7 +165,7 @@ Lemma skel_IsCompatible_ok : skel_IsCompatible =
   [Call "LessThan"; IfE "a.LessThan(b)" [Ret] []; Ret].
 Proof. reflexivity. Qed.
 
-(* buryStore has exactly one production caller, checkStores: this is what makes `is_bury_hook o = false` cover every production history in C14_bury_only_empty *)
+(* buryStore has exactly one production caller, checkStores (its unlocked region-count read is only a shortcut since b5aa87e: buryStore re-checks under the lock) *)
 Lemma bury_callers_ok : bury_callers =
   ["server/cluster/cluster.go:checkStores"].
 Proof. reflexivity. Qed.
